@@ -248,3 +248,59 @@ def gen_reread(rnd):
         s.rank_order["Z"] = q
     s.tags = list(s.tags) + ["cascade2", "reread-input", "reread-after-" + cls]
     return s
+
+
+def gen_rewrite(rnd):
+    """An intermediate that is read under a static split, WRITTEN AGAIN, and read once more
+    under the same split of that rank plus a split of another rank: anything the translator
+    remembers about the first partitioned copy is stale by then.
+        T[m,n] = A[m,n];  Y[..] = T[m,n] * B[..]  (M split);  T[m,n] = C[m,n];
+        Z[..] = T[m,n] * D[..]  (M split the same way, N split too)"""
+    from .mapping import interleave
+    names = rnd.sample(["M", "N", "K", "J", "P"], rnd.choice([2, 2, 3]))
+    tr = list(names)
+    decl = {"T": list(tr)}
+    fresh = iter("ABCDEFGH")
+
+    def inp(ranks):
+        n = next(fresh)
+        rs = list(ranks)
+        rnd.shuffle(rs)
+        decl[n] = rs
+        return _acc(n, rs)
+    exprs = []
+
+    def writer():
+        fs = [inp(tr)]
+        if rnd.random() < 0.3:
+            fs.append(inp(rnd.sample(tr, rnd.randint(1, len(tr)))))
+        exprs.append(Einsum(_acc("T", tr), [Term("times", fs)]))
+
+    def reader(out):
+        fs = [_acc("T", tr), inp(rnd.sample(tr, rnd.randint(1, len(tr))))]
+        rnd.shuffle(fs)
+        ors = [r for r in tr if rnd.random() < 0.6] or [tr[0]]
+        rnd.shuffle(ors)
+        decl[out] = ors
+        exprs.append(Einsum(_acc(out, ors), [Term("times", fs)]))
+    writer()
+    reader("Y")
+    writer()
+    reader("Z")
+    r1 = rnd.choice(tr)
+    r2 = rnd.choice([r for r in tr if r != r1])
+    d1 = rnd.choice(["uniform_shape(%d)", "nway_shape(%d)"]) % rnd.randint(2, 4)
+    d2 = rnd.choice(["uniform_shape(%d)", "nway_shape(%d)"]) % rnd.randint(2, 4)
+    parts = {"Y": {r1: [d1]}, "Z": {r1: [d1], r2: [d2]}}
+    if rnd.random() < 0.3:
+        parts["Y"][r2] = [d2]
+    lo = {}
+    for out in ("Y", "Z"):
+        groups = [[r + "1", r + "0"] if r in parts[out] else [r] for r in tr]
+        rnd.shuffle(groups)
+        if rnd.random() < 0.6:
+            lo[out] = interleave(rnd, groups, True)
+    spec = Spec(decl, exprs, rank_order=random_rank_orders(rnd, decl, p=0.4),
+                partitioning=parts, loop_order=lo or None,
+                tags=["cascade", "cascade4", "output-written-twice", "rewrite-between-split-reads"])
+    return spec
